@@ -761,6 +761,7 @@ type c07Case struct {
 	NChild   int
 	HasGC    bool
 	Intents  []c07Intent
+	Budget   bool // budget-focused case (c07GenBudgetCase)
 }
 
 type c07Intent struct {
@@ -773,7 +774,45 @@ type c07Intent struct {
 	Bump      bool
 }
 
+// c07GenBudgetCase: every fault is answered by Restart, a small budget (1-2) in a
+// long window, 2-3 siblings that fail in strict alternation, back to back. Under
+// one-for-all the faults of different siblings add up (each group restart bumps
+// every member's counter), under one-for-one each child has its own budget.
+func c07GenBudgetCase(rng *rand.Rand, caseNo int) *c07Case {
+	c := &c07Case{Prefix: fmt.Sprintf("c07n%d", caseNo), NChild: 2 + rng.Intn(2), Budget: true}
+	cfg := &c07Cfg{Any: c07DirNone, Typed: map[string]int{}, Extra: map[string]int{}}
+	if rng.Intn(3) > 0 {
+		cfg.Strategy = supervisor.OneForAllStrategy
+	}
+	if rng.Intn(2) == 0 {
+		cfg.Any = int(supervisor.RestartDirective)
+	} else {
+		for _, k := range []string{"A", "B", "C", "P"} {
+			cfg.Typed[k] = int(supervisor.RestartDirective)
+		}
+	}
+	cfg.HasRetry = true
+	cfg.MaxRetries = uint32(1 + rng.Intn(2))
+	cfg.Timeout = []time.Duration{5 * time.Second, time.Minute}[rng.Intn(2)]
+	if rng.Intn(4) == 0 {
+		cfg.Backoff = true
+		cfg.Initial = time.Duration(1+rng.Intn(4)) * time.Millisecond
+		cfg.MaxDelay = cfg.Initial * 4
+		cfg.ResetAfter = []time.Duration{5 * time.Second, time.Minute}[rng.Intn(2)]
+	}
+	c.ChildCfg = cfg
+	n := int(cfg.MaxRetries) + 1 + rng.Intn(3)
+	first := rng.Intn(c.NChild)
+	for i := 0; i < n; i++ {
+		c.Intents = append(c.Intents, c07Intent{Target: (first + i) % c.NChild, Kind: rng.Intn(c07NKinds), Bump: rng.Intn(2) == 0, Reinstate: rng.Intn(2) == 0})
+	}
+	return c
+}
+
 func c07GenCase(rng *rand.Rand, caseNo int) *c07Case {
+	if rng.Intn(6) == 0 {
+		return c07GenBudgetCase(rng, caseNo)
+	}
 	c := &c07Case{Prefix: fmt.Sprintf("c07n%d", caseNo), NChild: 1 + rng.Intn(3), HasGC: rng.Intn(3) == 0}
 	c.ChildCfg = c07GenCfg(rng, false)
 	if c.HasGC {
@@ -824,32 +863,33 @@ type c07SoftViolation struct {
 }
 
 type c07CaseResult struct {
-	Sig        string
-	Detail     map[string]any
-	Inconcl    string
-	Steps      int
-	Outcomes   map[string]bool
-	Restarts   int
-	Stops      int
-	Suspends   int
-	Escalates  int
-	Resumes    int
-	Exhausted  int
-	Chains     int
-	BothRules  bool // a lookup was decided while a typed and an any-error rule were both in force
-	Soft       []c07SoftViolation // violations after which the case continued
-	Fatal      bool               // the batch cannot go on
-	CutAmbig   bool
-	OneForAllN int // steps under one-for-all with >= 1 sibling
-	History    []string
+	Sig             string
+	Detail          map[string]any
+	Inconcl         string
+	Steps           int
+	Outcomes        map[string]bool
+	Restarts        int
+	Stops           int
+	Suspends        int
+	Escalates       int
+	Resumes         int
+	Exhausted       int
+	ExhaustedAcross int // one-for-all budget used up by faults of different siblings
+	Chains          int
+	BothRules       bool               // a lookup was decided while a typed and an any-error rule were both in force
+	Soft            []c07SoftViolation // violations after which the case continued
+	Fatal           bool               // the batch cannot go on
+	CutAmbig        bool
+	OneForAllN      int // steps under one-for-all with >= 1 sibling
+	History         []string
 }
 
 // c07Env is what a batch shares between its cases.
 type c07Env struct {
-	t     *testing.T
-	sys   *actorSystem
-	fence *PID
-	drain func(prefix string, into c07Events)
+	t       *testing.T
+	sys     *actorSystem
+	fence   *PID
+	drain   func(prefix string, into c07Events)
 	logTail func() []string
 }
 
@@ -948,7 +988,7 @@ func c07RunCase(env *c07Env, c *c07Case, rng *rand.Rand) (res c07CaseResult) {
 		}
 		return out
 	}
-	var curTarget *c07Node
+	var curTarget, prevTarget *c07Node
 	fail := func(sig string, d map[string]any) {
 		if res.Sig != "" {
 			return
@@ -1254,6 +1294,33 @@ func c07RunCase(env *c07Env, c *c07Case, rng *rand.Rand) (res c07CaseResult) {
 		}
 		res.History = append(res.History, stepText)
 		time.Sleep(2 * time.Millisecond) // best effort: lets stray extra actions surface; never decides anything
+		if strings.Contains(exp.directive, "budget-exhausted") {
+			// nothing positive can be awaited for "left suspended": give a restart
+			// that must not happen some room to show itself (detection effort only;
+			// a later one is still caught by the next step's pre-state comparison)
+			room := 250*time.Millisecond + 2*cfg.MaxDelay
+			verifrt.WaitUntil(room, func() bool {
+				led.mu.Lock()
+				defer led.mu.Unlock()
+				for n, x := range exp.per {
+					if x.judged && x.state == c07Suspended && led.attempts[n.name] > pre[n].attempts {
+						return true
+					}
+				}
+				return false
+			})
+			verifrt.WaitUntil(5*time.Second, func() bool { // let such a restart finish before observing
+				for n, x := range exp.per {
+					led.mu.Lock()
+					started := led.attempts[n.name] > pre[n].attempts
+					led.mu.Unlock()
+					if x.judged && x.state == c07Suspended && started && !n.pid.IsRunning() {
+						return false
+					}
+				}
+				return true
+			})
+		}
 		post := observe(func(n *c07Node) bool { return exp.per[n].judged })
 		env.drain(c.Prefix, ev)
 		led.mu.Lock()
@@ -1285,7 +1352,15 @@ func c07RunCase(env *c07Env, c *c07Case, rng *rand.Rand) (res c07CaseResult) {
 				continue
 			}
 			if b.state != x.state {
-				fail(tag(fmt.Sprintf("state:want-%s-got-%s", c07StateNames[x.state], c07StateNames[b.state]), n), detail(n, nil))
+				switch {
+				case strings.Contains(exp.directive, "budget-exhausted") && x.state == c07Suspended && b.state == c07Running && b.prestarts > a.prestarts:
+					// the budget of the restarted group was used up, yet it was restarted again
+					fail("budget:group-restarted-after-exhaustion:"+exp.strategy, detail(n, map[string]any{"role": x.role}))
+				case exp.directive == "Restart" && x.restarted && b.state == c07Suspended && cfg.maxRetries() > 0 && cfg.window() > 0:
+					fail("budget:group-suspended-before-exhaustion:"+exp.strategy, detail(n, map[string]any{"role": x.role}))
+				default:
+					fail(tag(fmt.Sprintf("state:want-%s-got-%s", c07StateNames[x.state], c07StateNames[b.state]), n), detail(n, nil))
+				}
 				return
 			}
 			switch {
@@ -1428,7 +1503,11 @@ func c07RunCase(env *c07Env, c *c07Case, rng *rand.Rand) (res c07CaseResult) {
 		res.Escalates += len(exp.signals)
 		if strings.Contains(exp.directive, "budget-exhausted") {
 			res.Exhausted++
+			if exp.strategy == "OneForAll" && prevTarget != nil && prevTarget != target {
+				res.ExhaustedAcross++
+			}
 		}
+		prevTarget = target
 		// ---- the ancestor acts: reinstate a suspended target so that the script can go on
 		if it.Reinstate {
 			for _, n := range targets {
@@ -1448,7 +1527,7 @@ func c07RunCase(env *c07Env, c *c07Case, rng *rand.Rand) (res c07CaseResult) {
 func TestVerif_C07(t *testing.T) {
 	r := verifrt.Start(t, "C07")
 	defer r.Finish()
-	r.Rule("case = generated supervisor config (strategy, WithDirective rules over 3 error types + PanicError, any-error rule or none, both kinds in force via SetDirectiveByType, default supervisor, retry budget 0-3 x window {none,200ms,5s}, backoff 1-8ms) shared by 1-3 sibling children of one parent (+ optional grandchild with its own config), x script of 1-6 faults (ctx.Err of 3 types, panic(error), panic(string), panic(PanicError); alternating siblings; same error hammered; PreStart failing once; grandchild escalation re-raised by its parent = escalate chain; gaps inside / beyond the window), injected one at a time with the supervision pipeline fenced to rest; oracle = reference supervisor model (directive lookup typed -> any -> suspend; Stop/Restart/Resume/Escalate effects on target and, where the statement speaks, siblings; fault counter with window as time intervals) vs PID state, PreStart counts, RestartCount, in-actor counter, event stream and PanicSignals logged by every family member; non-trivial = >= 2 judged faults with >= 2 different outcomes; distinct by config + script text")
+	r.Rule("case = generated supervisor config (strategy, WithDirective rules over 3 error types + PanicError, any-error rule or none, both kinds in force via SetDirectiveByType, default supervisor, retry budget 0-3 x window {none,200ms,5s}, backoff 1-8ms) shared by 1-3 sibling children of one parent (+ optional grandchild with its own config), x script of 1-6 faults (ctx.Err of 3 types, panic(error), panic(string), panic(PanicError); alternating siblings; same error hammered; one case in six budget-focused: all errors -> Restart, budget 1-2 in a 5s/1m window, 2-3 siblings failing in strict alternation back to back, one-for-all (group budget: every member's counter is bumped per group restart) or one-for-one (own budget per child); PreStart failing once; grandchild escalation re-raised by its parent = escalate chain; gaps inside / beyond the window), injected one at a time with the supervision pipeline fenced to rest; oracle = reference supervisor model (directive lookup typed -> any -> suspend; Stop/Restart/Resume/Escalate effects on target and, where the statement speaks, siblings; fault counter with window as time intervals) vs PID state, PreStart counts, RestartCount, in-actor counter, event stream and PanicSignals logged by every family member; non-trivial = >= 2 judged faults with >= 2 different outcomes; distinct by config + script text")
 	r.Assume("one FIFO supervision consumer per system: a later failure of a fence actor being acted upon implies earlier failures were acted upon (quiescence only)")
 	r.Assume("a restart that the parent has dispatched completes within 20s (normal: milliseconds); after that a still-suspended actor counts as not restarted")
 
@@ -1525,6 +1604,10 @@ func TestVerif_C07(t *testing.T) {
 		r.Count("resumes_checked", int64(res.Resumes))
 		r.Count("escalations_checked", int64(res.Escalates))
 		r.Count("budget_exhaustions", int64(res.Exhausted))
+		r.Count("group_budget_exhausted_by_alternating_siblings", int64(res.ExhaustedAcross))
+		if c.Budget {
+			r.Count("budget_focused_cases", 1)
+		}
 		r.Count("escalate_chains", int64(res.Chains))
 		r.Count("one_for_all_steps_with_siblings", int64(res.OneForAllN))
 		if res.BothRules {
